@@ -3,6 +3,7 @@ import z3
 from sx.harness import Case
 from sx.core import lift, term_of, SInt, SBytes
 from props import _loop as L
+from sx.stubs import patched
 
 PROPERTY = "C08"
 FUNCTIONS = ["paramiko.kex_group1.KexGroup1._parse_kexdh_init", "paramiko.kex_group1.KexGroup1._parse_kexdh_reply",
@@ -56,7 +57,7 @@ def dh_case(group, server):
         eng.x = 12345
         log = []
         outcome = None
-        with ctx.patches([(G1, "pow", _pow_rec(log))]):
+        with patched([(G1, "pow", _pow_rec(log))]):
             try:
                 if server:
                     eng._parse_kexdh_init(_M(v))
@@ -93,7 +94,7 @@ def gex_value_case(server):
 
         def stop(self):
             raise Reached()
-        with ctx.patches([(GX, "pow", _pow_rec(log)), (GX.KexGex, "_generate_x", stop)]):
+        with patched([(GX, "pow", _pow_rec(log)), (GX.KexGex, "_generate_x", stop)]):
             try:
                 if server:
                     eng._parse_kexdh_gex_init(_M(v))
@@ -122,7 +123,7 @@ def gex_group_case():
 
         def stop(self):
             raise Reached()
-        with ctx.patches([(GX.KexGex, "_generate_x", stop)]):
+        with patched([(GX.KexGex, "_generate_x", stop)]):
             try:
                 eng._parse_kexdh_gex_group(_M(p, 2))
                 outcome = "completed"
@@ -150,7 +151,7 @@ def x25519_case():
             @staticmethod
             def bytes_eq(a, b):
                 return a == b
-        with ctx.patches([(KC, "constant_time", CT)]):
+        with patched([(KC, "constant_time", CT)]):
             try:
                 out = eng._perform_exchange(object())
                 rejected = False
@@ -184,7 +185,7 @@ def ecdh_case(server):
         t._set_K_H = lambda *a: setkh.append(a)
         eng = KE.KexNistp256(t)
         err = None
-        with ctx.patches([(KE, "ec", EC)]):
+        with patched([(KE, "ec", EC)]):
             try:
                 if server:
                     eng._parse_kexecdh_init(_M(point))
